@@ -90,7 +90,7 @@ chk('C04', 'exploration',
 
 chk('C16', 'fault_enumeration',
     'exhaustive fault and crash-point enumeration of the recorded syscall history of the real binary (strace inject / SIGKILL / RLIMIT_FSIZE)',
-    'For 8 file contents the syscall history of the real `falco fmt -w FILE` is recorded under strace; every invocation of every file-related syscall of that history is re-run once per errno of its menu (fault) and once with SIGKILL on entry (every crash prefix), plus every RLIMIT_FSIZE from 0 to output size + 8, an unopenable target and a directory in which nothing can be created; two-run histories (a run killed at every directory / temporary-file call, the content replaced, a normal second run) and invocations with 2-3 targets (no fault, and killed at every rename) - about 3000 process runs in the quick tier. After each run the file must hold its original bytes or exactly what `falco fmt FILE` prints; a non-zero exit implies the original bytes, a zero exit the formatted text.',
+    'For 9 file contents (two of them also through a symbolic link) the syscall history of the real `falco fmt -w FILE` is recorded under strace; every invocation of every file-related syscall of that history is re-run once per errno of its menu (fault) and once with SIGKILL on entry (every crash prefix), plus every RLIMIT_FSIZE from 0 to output size + 8, an unopenable target and a directory in which nothing can be created; two-run histories (a run killed at every directory / temporary-file call, the content replaced, a normal second run) and invocations with 2-3 targets (no fault, and killed at every rename) - about 3000 process runs in the quick tier. After each run the file must hold its original bytes or exactly what `falco fmt FILE` prints; a non-zero exit implies the original bytes, a zero exit the formatted text.',
     'Trusts: strace fault injection (the run\'s own trace is inspected for the (INJECTED) marker), prlimit, kernel file semantics. Crash model: process death between two syscalls; power-loss reordering of unsynced blocks is out of scope.', '§4 C16')
 
 chk('C20', 'exploration',
